@@ -18,13 +18,35 @@ fn run_stdin() {
     let stdin = std::io::stdin();
     let stdout = std::io::stdout();
     let mut out = stdout.lock();
+    // watchdog: a request that does not answer within the limit is answered `TIMEOUT` (written
+    // straight to fd 1: every earlier answer has been flushed) and ends this process; the parent
+    // restarts a child on the remaining requests
+    static BUSY_SINCE_MS: std::sync::atomic::AtomicU64 = std::sync::atomic::AtomicU64::new(0);
+    let limit_ms: u64 = std::env::var("TVH_TIMEOUT_S").ok().and_then(|v| v.parse().ok()).unwrap_or(30u64) * 1000;
+    let t0 = std::time::Instant::now();
+    std::thread::spawn(move || loop {
+        std::thread::sleep(std::time::Duration::from_millis(200));
+        let since = BUSY_SINCE_MS.load(std::sync::atomic::Ordering::SeqCst);
+        if since != 0 && (t0.elapsed().as_millis() as u64).saturating_sub(since) > limit_ms {
+            use std::os::fd::FromRawFd;
+            let mut f = unsafe { std::fs::File::from_raw_fd(1) };
+            let _ = f.write_all(engine::TIMEOUT.as_bytes());
+            let _ = f.write_all(b"\n");
+            let _ = f.write_all(engine::RESTART.as_bytes());
+            let _ = f.write_all(b"\n");
+            let _ = f.flush();
+            std::process::exit(3);
+        }
+    });
     for line in stdin.lock().lines() {
         let line = match line {
             Ok(l) => l,
             Err(_) => break,
         };
         let r = proto::Req::parse(&line);
+        BUSY_SINCE_MS.store(t0.elapsed().as_millis() as u64 + 1, std::sync::atomic::Ordering::SeqCst);
         let res = std::panic::catch_unwind(|| props::run(&r));
+        BUSY_SINCE_MS.store(0, std::sync::atomic::Ordering::SeqCst);
         let s = match res {
             Ok(Some(s)) => s,
             Ok(None) => "?unknown".to_string(),
@@ -35,6 +57,11 @@ fn run_stdin() {
         };
         let _ = writeln!(out, "{}", s);
         let _ = out.flush();
+        if engine::EXIT_AFTER_ANSWER.load(std::sync::atomic::Ordering::SeqCst) {
+            let _ = writeln!(out, "{}", engine::RESTART);
+            let _ = out.flush();
+            std::process::exit(3);
+        }
     }
 }
 
